@@ -25,6 +25,7 @@ type UObj struct {            // state unfolder using Cont/Push/Done: object {k:
 }
 type UProc struct{ N, First int64 } // processing unfolder: cell = *[]int64, then N = len, First = cell[0]
 type UExp struct{ X, Y int64 }      // Expander: like UPt
+type USelf struct{ N int64 }        // processing unfolder whose cell IS the target: default unfolding, then N *= 10
 
 func unfoldUStr(to *UStr, s string) error { to.V = "u:" + s; return nil }
 func unfoldUI64(to *UI64, v int64) error  { to.N = v; return nil }
@@ -134,7 +135,14 @@ func unfoldUProc(to *UProc) (interface{}, func(*UProc, interface{}) error) {
 	}
 }
 
-var userUnfolders = gotype.Unfolders(unfoldUStr, unfoldUI64, unfoldUPt, unfoldUObj, unfoldUProc)
+func unfoldUSelf(to *USelf) (interface{}, func(*USelf, interface{}) error) {
+	return to, func(to *USelf, _ interface{}) error {
+		to.N *= 10
+		return nil
+	}
+}
+
+var userUnfolders = gotype.Unfolders(unfoldUStr, unfoldUI64, unfoldUPt, unfoldUObj, unfoldUProc, unfoldUSelf)
 
 // Options are values: using the shared option values of the harness together with OTHER options in one call must
 // not change what the shared values mean afterwards.  Done once per process, before any case runs: an iterator and an
@@ -167,6 +175,7 @@ func init() {
 		"UObj":  {reflect.TypeOf(UObj{}), TD{K: "struct", F: []FD{{Name: "K", T: TD{K: "string"}}, {Name: "N", T: i64}}}},
 		"UProc": {reflect.TypeOf(UProc{}), TD{K: "struct", F: []FD{{Name: "N", T: i64}, {Name: "First", T: i64}}}},
 		"UExp":  {reflect.TypeOf(UExp{}), TD{K: "struct", F: []FD{{Name: "X", T: i64}, {Name: "Y", T: i64}}}},
+		"USelf": {reflect.TypeOf(USelf{}), TD{K: "struct", F: []FD{{Name: "N", T: i64}}}},
 	} {
 		namedTypes[id] = x.t
 		namedUnder[id] = x.u
